@@ -195,6 +195,9 @@ def run(ctx, exe, pts, scale, phase_timeout, launch_timeout, chunk, jobs, deadli
             for i in range(nch):                      # strided: the sessions with big transfers are spread over the launches
                 launches.append(make_launch(exe, 'r%d-n%d-%d' % (rnd, n, i), n, mine[i::nch], scale, phase_timeout, launch_timeout))
         launches.sort(key=lambda l: -l.n)             # the longest launches (most ranks) first
+        if deadline is not None:
+            for l in launches:
+                l.kill_at = deadline + 90             # nothing outlives the deadline by much; the sessions a killed launch completed still count
         results, skip = mp.run_box(launches, root, jobs=jobs, timeout=launch_timeout, deadline=deadline, confirm=False, max_ranks=40)
         pending = []
         suspects = []
